@@ -130,13 +130,44 @@ class Check:
             s.setdefault("engines", 1)
             s.setdefault("scripts", {})
             s.setdefault("keys", [])
-        fn = os.path.join(WORK, "%s-%s-%d.json" % (self.prop, name, os.getpid()))
-        with open(fn, "w") as f:
-            json.dump(scns, f)
-        try:
-            res = tlc.run(spec, cfg, env={"SCN_FILE": fn}, tag="%s-%s-%d" % (self.prop, name, os.getpid()), workers=workers)
-        finally:
-            os.unlink(fn)
+        # moderate scenario files, several TLC processes side by side
+        chunks = []
+        cur, size = [], 0
+        for s in scns:
+            b = len(json.dumps(s))
+            if cur and (size + b > 6000000 or len(cur) >= 2500):
+                chunks.append(cur); cur, size = [], 0
+            cur.append(s); size += b
+        if cur:
+            chunks.append(cur)
+        par = 1 if len(chunks) == 1 else min(4, len(chunks))
+        w = max(2, workers // par)
+
+        def run_chunk(args):
+            ci, chunk = args
+            base = chunk[0]["id"] - 1
+            local = []
+            for s in chunk:
+                t = dict(s); t["id"] = s["id"] - base; local.append(t)
+            fn = os.path.join(WORK, "%s-%s-%d-%d.json" % (self.prop, name, os.getpid(), ci))
+            with open(fn, "w") as f:
+                json.dump(local, f)
+            try:
+                r = tlc.run(spec, cfg, env={"SCN_FILE": fn}, tag="%s-%s-%d-%d" % (self.prop, name, os.getpid(), ci), workers=w)
+            finally:
+                os.unlink(fn)
+            for rec in r.records:
+                rec["id"] += base
+            return r
+        import concurrent.futures
+        with concurrent.futures.ThreadPoolExecutor(par) as ex:
+            parts = list(ex.map(run_chunk, enumerate(chunks)))
+        res = tlc.TLCResult()
+        for r in parts:
+            res.records.extend(r.records)
+            res.generated += r.generated
+            res.distinct += r.distinct
+            res.wall = max(res.wall, r.wall)
         self.add_tlc(res, props)
         recs = res.records
         items = [(scns[r["id"] - 1], r, o) for r in recs for o in (opts_list or [opts])]
